@@ -406,6 +406,8 @@ type missCase struct {
 	Wire    B     `json:"wire"`
 	Parsed  []seg `json:"parsed"`
 	Parsed2 []seg `json:"parsed2"`
+	// the previous case's report, kept as returned, has not been changed by computing this one
+	PrevSame bool `json:"prevsame"`
 }
 
 func init() {
@@ -486,6 +488,11 @@ func check9212(run aRun) (string, string) {
 	return "", ""
 }
 
+var (
+	heldMiss     []model.P0x9212RetransmitPacket
+	heldMissCopy []seg
+)
+
 // missReport: the real range computation for a chunk set, its 0x9212 encoding, and the encoding read back
 func missReport(i, size int, chunks []seg, reused9212 *model.P0x9212) missCase {
 	p := &attachment.Package{FileSize: uint32(size), OffsetRecord: map[int]int{}, OffsetDataRecord: map[int][]byte{}}
@@ -494,10 +501,21 @@ func missReport(i, size int, chunks []seg, reused9212 *model.P0x9212) missCase {
 		p.CurrentSize += uint32(ch.Len)
 	}
 	got := []seg{}
-	for _, s := range p.StatisticalMissSegments() {
+	raw := p.StatisticalMissSegments()
+	for _, s := range raw {
 		got = append(got, seg{int(s.DataOffset), int(s.DataLength)})
 	}
-	mc := missCase{Size: size, Chunks: chunks, Segs: got, Name: B{}, Wire: B{}, Parsed: []seg{}, Parsed2: []seg{}}
+	// the report computed for the previous package is still what it was (it may not have been encoded and written yet)
+	prevSame := true
+	if heldMiss != nil {
+		for k, s := range heldMiss {
+			if k >= len(heldMissCopy) || int(s.DataOffset) != heldMissCopy[k].Off || int(s.DataLength) != heldMissCopy[k].Len {
+				prevSame = false
+			}
+		}
+	}
+	heldMiss, heldMissCopy = raw, append([]seg{}, got...)
+	mc := missCase{Size: size, Chunks: chunks, Segs: got, Name: B{}, Wire: B{}, Parsed: []seg{}, Parsed2: []seg{}, PrevSame: prevSame}
 	if len(got) <= 255 {
 		mc.HasWire = true
 		mc.Name = B(fmt.Sprintf("f%d.bin", i))
